@@ -1,17 +1,154 @@
-//! module `poly` — streams `poly.*` (not built yet).
+//! module `poly` (serves C19, polyline part) — `Polyline::points()`.
+//!
+//! Streams (compared with the Lean model `EG.Model.Polyline`):
+//!   poly.points n x y x y ...            -> points of `Polyline::new(&vertices).points()` in order
+//!   poly.translated tx ty n x y x y ...  -> points of `Polyline::new(&vertices).translate((tx,ty)).points()`
+//!   (format of `m_line::pts_digest`: full list up to 64 points, digest beyond)
+//!
+//! Oracle (C19: "a one-pixel polyline equals the union of its segment lines with shared joints
+//! emitted once"; Lean statement mirrored: `polyline_points`):
+//!   C19:poly-union       points() = seg_0.points() ++ seg_1.points()[1..] ++ seg_2.points()[1..] ++ ..
+//!                        where seg_i = Line(v_i, v_{i+1}) and `Line::points()` is the real thin-line
+//!                        iterator (itself covered by C17); fewer than 2 vertices give no point.
+//!                        In particular the joint v_{i+1} appears once at the seam (also through
+//!                        zero-length segments: repeated vertices add nothing).
+//!   C19:poly-draw        a stroke-width-1 styled polyline draws exactly that point set
+//!   C07:poly-translate   translate(d).points() = points() shifted by d
 use crate::common::*;
+use crate::m_line::pts_digest;
+use embedded_graphics::{
+    pixelcolor::BinaryColor,
+    prelude::*,
+    primitives::{Line, Polyline, PrimitiveStyle},
+};
+use std::collections::BTreeSet;
 
 pub struct M;
+
+fn union_spec(vs: &[Point]) -> Vec<Point> {
+    let mut out = Vec::new();
+    for (i, w) in vs.windows(2).enumerate() {
+        let seg: Vec<Point> = Line::new(w[0], w[1]).points().collect();
+        out.extend_from_slice(if i == 0 { &seg[..] } else { &seg[1..] });
+    }
+    out
+}
+
+fn op_of(stream: &str, vs: &[(i64, i64)]) -> String {
+    let mut s = format!("{} {}", stream, vs.len());
+    for (x, y) in vs {
+        s.push_str(&format!(" {} {}", x, y));
+    }
+    s
+}
+
+fn all_on_grid(g: i64, n: usize, ox: i64, oy: i64, emit: &mut dyn FnMut(String)) {
+    let cells = (g * g) as usize;
+    let total = cells.pow(n as u32);
+    for mut k in 0..total {
+        let mut vs = Vec::with_capacity(n);
+        for _ in 0..n {
+            let c = (k % cells) as i64;
+            k /= cells;
+            vs.push((ox + c % g, oy + c / g));
+        }
+        emit(op_of("poly.points", &vs));
+    }
+}
+
+fn classify(ctx: &mut Ctx, vs: &[Point]) {
+    ctx.count(&format!("poly:vertices={}", vs.len().min(7)));
+    if vs.windows(2).any(|w| w[0] == w[1]) {
+        ctx.count("poly:repeated-vertex");
+    }
+    if vs.windows(3).any(|w| w[0] == w[2] && w[0] != w[1]) {
+        ctx.count("poly:reversal");
+    }
+}
 
 impl Module for M {
     fn name(&self) -> &'static str {
         "poly"
     }
     fn rule(&self) -> &'static str {
-        "not built yet"
+        "all vertex lists of length 0..=N over a g x g grid (quick: N=4 on 3x3 and N=3 on 4x4; thorough: N=5 on 3x3, N=4 on 4x4), \
+         i.e. including repeated vertices and reversals, then seeded random polylines with 0..=6 vertices, coordinates up to \
+         +-300, forced repeats / reversals, and translated polylines; non-trivial = at least 3 vertices and at least 2 \
+         distinct ones; distinct = distinct op text"
     }
-    fn generate(&self, _pid: &str, _tier: Tier, _rng: &mut Rng, _emit: &mut dyn FnMut(String)) {}
-    fn execute(&self, op: &str, _ctx: &mut Ctx) -> String {
-        panic!("unknown op {}", op)
+
+    fn generate(&self, pid: &str, tier: Tier, rng: &mut Rng, emit: &mut dyn FnMut(String)) {
+        if pid != "C19" {
+            return;
+        }
+        let quick = tier == Tier::Quick;
+        for n in 0..=(if quick { 4 } else { 5 }) {
+            all_on_grid(3, n, -1, -1, emit);
+        }
+        for n in 2..=(if quick { 3 } else { 4 }) {
+            all_on_grid(4, n, 2, -5, emit);
+        }
+        let nrand = if quick { 3000 } else { 50_000 };
+        for i in 0..nrand {
+            let n = rng.range(0, 6) as usize;
+            let sc = *rng.pick(&[3i64, 6, 12, 40, 300]);
+            let mut vs: Vec<(i64, i64)> = Vec::new();
+            for k in 0..n {
+                let v = match rng.below(8) {
+                    0 if k >= 1 => vs[k - 1],                      // repeated vertex
+                    1 if k >= 2 => vs[k - 2],                      // reversal
+                    2 if k >= 1 => (vs[k - 1].0 + rng.range(-sc, sc), vs[k - 1].1), // horizontal segment
+                    3 if k >= 1 => (vs[k - 1].0, vs[k - 1].1 + rng.range(-sc, sc)), // vertical segment
+                    _ => (rng.range(-sc, sc), rng.range(-sc, sc)),
+                };
+                vs.push(v);
+            }
+            if i % 4 == 3 {
+                let op = op_of("poly.translated", &vs);
+                let rest = op.strip_prefix("poly.translated ").unwrap().to_string();
+                emit(format!("poly.translated {} {} {}", rng.range(-50, 50), rng.range(-50, 50), rest));
+            } else {
+                emit(op_of("poly.points", &vs));
+            }
+        }
+    }
+
+    fn execute(&self, op: &str, ctx: &mut Ctx) -> String {
+        let mut t = Toks::new(op);
+        let stream = t.str();
+        let d = if stream == "poly.translated" { t.point() } else { Point::zero() };
+        if stream != "poly.points" && stream != "poly.translated" {
+            panic!("unknown op {}", op);
+        }
+        let n = t.usize();
+        let vs: Vec<Point> = (0..n).map(|_| t.point()).collect();
+        classify(ctx, &vs);
+        let distinct: BTreeSet<(i32, i32)> = vs.iter().map(|p| (p.x, p.y)).collect();
+        if vs.len() >= 3 && distinct.len() >= 2 {
+            ctx.nontrivial(op);
+        }
+        let base = Polyline::new(&vs);
+        let pl = if stream == "poly.translated" { base.translate(d) } else { base };
+        let pts: Vec<Point> = pl.points().collect();
+        // the union of the segment lines, joints once
+        let moved: Vec<Point> = vs.iter().map(|p| *p + d).collect();
+        let spec = union_spec(&moved);
+        ctx.expect(pts == spec, "C19:poly-union", || {
+            format!("vertices {:?} translate {:?}: {} points, union of segments has {}", vs, d, pts.len(), spec.len())
+        });
+        if stream == "poly.translated" {
+            ctx.count("poly:translated");
+            let shifted: Vec<Point> = base.points().map(|p| p + d).collect();
+            ctx.expect(pts == shifted, "C07:poly-translate", || format!("vertices {:?} translate {:?}", vs, d));
+        }
+        // a one-pixel styled polyline draws exactly these points
+        let mut r1: R1<BinaryColor> = R1::unbounded();
+        let res = pl.into_styled(PrimitiveStyle::with_stroke(BinaryColor::On, 1)).draw(&mut r1);
+        let drawn: BTreeSet<(i32, i32)> = r1.rec.map.keys().map(|(y, x)| (*x, *y)).collect();
+        let want: BTreeSet<(i32, i32)> = spec.iter().map(|p| (p.x, p.y)).collect();
+        ctx.expect(res.is_ok() && drawn == want, "C19:poly-draw", || {
+            format!("vertices {:?} translate {:?}: drawn {} px, union has {}", vs, d, drawn.len(), want.len())
+        });
+        pts_digest(&pts)
     }
 }
